@@ -1557,6 +1557,12 @@ def iter_fold(I, st, fr, t, a):
             changed = [c for c, v in st2.store.items() if c in before and before[c] is not v and c[0] != 'static']
             if changed:
                 raise from_undecided()('fold closure over a symbolic bulk has side effects')
+            # a newtype around the hash value (`struct Key(u64)` with its own BitXor) is folded on the wrapped value
+            wrap_ty = None
+            if isinstance(acc, Struct) and isinstance(r, Struct) and acc.ty == r.ty and len(acc.fields) == 1 and len(r.fields) == 1 \
+                    and not acc.ty.startswith('$'):
+                wrap_ty = acc.ty
+                acc, r = acc.fields[0], r.fields[0]
             hp, hn = I.as_hf(acc), I.as_hf(r)
             if hp is None or hn is None:
                 raise from_undecided()('fold over a symbolic bulk: accumulator is not a hash form')
@@ -1571,6 +1577,8 @@ def iter_fold(I, st, fr, t, a):
                 else:
                     raise from_undecided()('fold over a symbolic bulk: change not linear in the bulk index')
             acc = hp.xor(HF(out))
+            if wrap_ty is not None:
+                acc = Struct(wrap_ty, (acc,))
             st = st2
             continue
         raise from_undecided()('fold over item %r' % (cur[0],))
@@ -3133,3 +3141,71 @@ def iter_position(I, st, fr, t, a):
 @summary('std::option::Option::<T>::map_or_else')
 def opt_map_or_else(I, st, fr, t, a):
     return opt_split(I, st, a[0], lambda s, x: I.call_closure(s, a[2], [x]), lambda s: I.call_closure(s, a[1], []))
+
+
+def _int_cmp(partial):
+    def h(I, st, fr, t, a):
+        """`a.cmp(&b)` / `partial_cmp` on integers: Less / Equal / Greater decided by the two comparisons"""
+        x = I.deref(st, a[0]) if isinstance(a[0], Ref) else a[0]
+        y = I.deref(st, a[1]) if isinstance(a[1], Ref) else a[1]
+        if not (isinstance(x, (BV, Term, Ite)) and isinstance(y, (BV, Term, Ite))):
+            return typed_opaque(I, st, fr, t, a)
+        oty = 'std::cmp::Ordering'
+        lt = I.binop('Lt', x, y, fr.fname if fr is not None else None, t.get('at'))
+        eq = I.binop('Eq', x, y, fr.fname if fr is not None else None, t.get('at'))
+
+        def bit_of(v):
+            if isinstance(v, Ite):
+                return B.bite(v.c, bit_of(v.a), bit_of(v.b))
+            return v.bits[0]
+        r = I.merge(bit_of(lt), Enum(oty, 0), I.merge(bit_of(eq), Enum(oty, 1), Enum(oty, 2)))
+        if partial:
+            return some(r, ret_ty(I, fr, t) or OPT), st
+        return r, st
+    return h
+
+
+for _ty in ('u8', 'u16', 'u32', 'u64', 'usize', 'i8', 'i16', 'i32', 'i64', 'isize', 'char'):
+    TABLE['core::cmp::impls::<impl std::cmp::Ord for %s>::cmp' % _ty] = _int_cmp(False)
+    TABLE['core::cmp::impls::<impl std::cmp::PartialOrd for %s>::partial_cmp' % _ty] = _int_cmp(True)
+    TABLE['std::cmp::impls::<impl std::cmp::Ord for %s>::cmp' % _ty] = _int_cmp(False)
+    TABLE['std::cmp::impls::<impl std::cmp::PartialOrd for %s>::partial_cmp' % _ty] = _int_cmp(True)
+
+
+@summary('std::array::<impl [T; N]>::map', 'core::array::<impl [T; N]>::map')
+def array_map(I, st, fr, t, a):
+    """`[a, b, c].map(f)` on an array of known items"""
+    v = a[0]
+    if isinstance(v, Ref):
+        v = I.deref(st, v)
+    if not (isinstance(v, Seq) and all(x[0] == 'elem' for x in v.items)):
+        raise from_undecided()('array map on %r' % (v,))
+    out = []
+    for x in v.items:
+        r, st = I.call_closure(st, a[1], [x[1]])
+        if st is None:
+            return BOTTOM, None
+        out.append(('elem', r))
+    return Seq(out), st
+
+
+_into_iter_unresolved_before = TABLE['std::iter::IntoIterator::into_iter']
+
+
+def into_iter_by_value(I, st, fr, t, a):
+    """an unresolved `IntoIterator::into_iter` (inside a generic body): a local impl for the value's own type is used when there is one"""
+    v = a[0]
+    tgt = I.deref_all(st, v) if isinstance(v, Ref) else v
+    ty = getattr(tgt, 'ty', None)
+    if isinstance(tgt, Struct) and ty and not ty.startswith(('$', 'std::', 'core::', 'tuple', 'closure:')):
+        base = ty.split('<')[0]
+        byref = isinstance(v, Ref)
+        for k in I.fns:
+            if k.endswith('as std::iter::IntoIterator>::into_iter') and base + '<' in k.replace(base + ' ', base + '<') or \
+                    (k.endswith('as std::iter::IntoIterator>::into_iter') and (' ' + base + ' as') in (' ' + k.lstrip('<').lstrip("&'a ").lstrip('&'))):
+                if byref == k.startswith('<&'):
+                    return I.call_local(k, [v], st)
+    return _into_iter_unresolved_before(I, st, fr, t, a)
+
+
+TABLE['std::iter::IntoIterator::into_iter'] = into_iter_by_value
